@@ -150,10 +150,14 @@ class LeakyRelu(_Act):
                 out.append({"a": L(s), "via": "F", "slope": slope})
         out.append({"a": [3], "via": "M", "slope": 0.1})
         out.append({"a": [3], "via": "F", "slope": None})
+        out.append({"a": [2], "via": "F", "slope": 0.5, "np": True})     # the slope as a NumPy scalar
+        out.append({"a": [2], "via": "M", "slope": 0.5, "np": True})
         return out
 
     def forward(self, args, ts, extra):
         sl = args["slope"]
+        if args.get("np"):
+            sl = np.float64(sl)
         if args["via"] == "M":
             return NN().LeakyReLU(sl)(ts[0])
         return NF().leaky_relu(ts[0]) if sl is None else NF().leaky_relu(ts[0], sl)
